@@ -104,7 +104,7 @@ def run_alpha(prop: str, repo: str) -> Dict[str, Any]:
     """Neutrality: rename the local variables of every function of the package (upsa/alpha.py, a behaviour-preserving
     rewrite) and run the check on the result; the (rule, function) pairs it reports must be those of the unchanged
     tree. A difference means some rule keys on a spelling."""
-    from .alpha import alpha_rename
+    from .alpha import alpha_rename, interleave_noops
 
     res: Dict[str, Any] = {"id": "neutral-alpha-rename", "kind": "neutral", "expect": prop, "status": "?"}
     scratch = tempfile.mkdtemp(prefix=f"upsa_{prop}_alpha_")
@@ -120,6 +120,7 @@ def run_alpha(prop: str, repo: str) -> Dict[str, Any]:
                     with open(path) as fh:
                         src = fh.read()
                     new, k = alpha_rename(src)
+                    new = interleave_noops(new)
                     compile(new, path, "exec")
                     renamed += k
                     with open(path, "w") as fh:
